@@ -163,7 +163,6 @@ package tq
 //@   modifies fresh
 //@   ensures isauxdir(path_dir(result)) && !isobj(result)
 
-
 // C06: accounting.  counter is the number of objects the queue still waits
 // for; chsent(ch) counts sends on a channel.
 //@ func (*abortableWaitGroup).Done
@@ -184,7 +183,6 @@ package tq
 //@   ensures !old(has(q.transfers, t.Oid)) ==> q.wait.counter == old(q.wait.counter) + 1
 //@   ensures old(has(q.transfers, t.Oid)) ==> q.wait.counter == old(q.wait.counter)
 //@   ensures has(q.transfers, old(t.Oid))
-
 
 // Progress meter and lazy manifest upgrade (assumed frames: they touch only
 // the meter's own counters / the manifest field).
@@ -533,3 +531,57 @@ package tq
 //@   assumed
 //@   props C06
 //@   modifies fresh
+
+// C15: the retry settings a transfer queue works with are the configured ones.
+// lfs.transfer.maxretries counts when it is at least one (eight otherwise);
+// lfs.transfer.maxretrydelay counts when it is not negative - zero included,
+// which switches the back-off off (docs/man/git-lfs-config.adoc) - and is ten
+// otherwise.  env_int(env, key, default) is what the Git environment answers.
+//@ func newConcreteManifest
+//@   props C15
+//@   ensures result != nil && apiClient != nil && client_gitenv(apiClient) != nil && env_int(client_gitenv(apiClient), "lfs.transfer.maxretrydelay", -1) > -1 ==> result.maxRetryDelay == env_int(client_gitenv(apiClient), "lfs.transfer.maxretrydelay", -1)
+//@   ensures result != nil && apiClient != nil && (client_gitenv(apiClient) == nil || env_int(client_gitenv(apiClient), "lfs.transfer.maxretrydelay", -1) <= -1) ==> result.maxRetryDelay == 10
+//@   ensures result != nil && apiClient != nil && client_gitenv(apiClient) != nil && env_int(client_gitenv(apiClient), "lfs.transfer.maxretries", 0) > 0 ==> result.maxRetries == env_int(client_gitenv(apiClient), "lfs.transfer.maxretries", 0)
+//@   ensures result != nil && apiClient != nil && (client_gitenv(apiClient) == nil || env_int(client_gitenv(apiClient), "lfs.transfer.maxretries", 0) <= 0) ==> result.maxRetries == 8
+//@ func (*github.com/git-lfs/git-lfs/v3/lfsapi.Client).GitEnv
+//@   assumed
+//@   props C15
+//@   pure
+//@   ensures result == client_gitenv(c)
+//@ func (*github.com/git-lfs/git-lfs/v3/lfsapi.Client).SSHTransfer
+//@   assumed
+//@   props C15
+//@   modifies fresh
+//@ func (*github.com/git-lfs/git-lfs/v3/ssh.SSHTransfer).IsMultiplexingEnabled
+//@   assumed
+//@   props C15
+//@   noeffect
+//@ func findStandaloneTransfer
+//@   assumed
+//@   props C15
+//@   modifies fresh
+//@ func configureCustomAdapters
+//@   assumed
+//@   props C15
+//@   modifies fresh, map m.downloadAdapterFuncs, map m.uploadAdapterFuncs
+//@ func configureBasicDownloadAdapter
+//@   assumed
+//@   props C15
+//@   modifies fresh, map m.downloadAdapterFuncs
+//@ func configureBasicUploadAdapter
+//@   assumed
+//@   props C15
+//@   modifies fresh, map m.uploadAdapterFuncs
+//@ func configureTusAdapter
+//@   assumed
+//@   props C15
+//@   modifies fresh, map m.uploadAdapterFuncs
+//@ func configureSSHAdapter
+//@   assumed
+//@   props C15
+//@   modifies fresh, map m.downloadAdapterFuncs, map m.uploadAdapterFuncs
+//@ func github.com/git-lfs/git-lfs/v3/lfsapi.NewClient
+//@   assumed
+//@   props C15
+//@   modifies fresh
+//@   ensures result1 == nil ==> result0 != nil
